@@ -82,6 +82,30 @@ fn compose(t: &mut Tape, ctx: &mut Ctx, maxlen: usize, maxcod: usize) -> CheckRe
     } else {
         ctx.class("not-composable");
     }
+    // equality of finite functions is equality of (table, codomain); of segmented arrays, of (sizes, values)
+    ctx.sub("equality");
+    {
+        let same = sv::ff(f.clone(), b);
+        let wider = sv::ff(f.clone(), b + 1);
+        ensure!(ctx, ff_ == same && !(ff_ != same), "equality", "a finite function differs from its copy");
+        ensure!(ctx, ff_ != wider && !(ff_ == wider), "equality", "f : {} -> {} compares equal to the same table with codomain {}", f.len(), b, b + 1);
+        if !f.is_empty() && b >= 2 {
+            let k = t.choice(f.len());
+            let mut f2 = f.clone();
+            f2[k] = (f2[k] + 1 + t.choice(b - 1)) % b;
+            ensure!(ctx, (ff_ == sv::ff(f2.clone(), b)) == (f2 == f), "equality", "f compares equal to a table that differs at position {k}");
+        }
+        if !f.is_empty() {
+            let shorter = sv::ff(f[..f.len() - 1].to_vec(), b);
+            ensure!(ctx, ff_ != shorter, "equality", "f compares equal to its proper prefix");
+        }
+        // segmented arrays: same values, different segmentation
+        let n = f.len();
+        let one = sv::icf(&[f.clone()], b);
+        let split = sv::icf(&[f[..n / 2].to_vec(), f[n / 2..].to_vec()], b);
+        ensure!(ctx, one == sv::icf(&[f.clone()], b) && one != split, "equality", "segmented-array equality ignores the segmentation");
+        ensure!(ctx, sv::icf(&[f.clone()], b + 1) != one, "equality", "segmented-array equality ignores the codomain of the values");
+    }
     // identities
     ctx.sub("identity-laws");
     let idl = FF::identity(f.len());
